@@ -303,7 +303,11 @@ def check_long(vals, shape):
     if not msgs:
         sl = pd.Series(list(vals), index=pd.DatetimeIndex(SHAPES[shape](len(vals))))
         ref = ref_metrics(vals, SHAPES[shape](len(vals)))[0]
-        for c in (2.0, 0.1):
+        # power-of-two scalings only: they commute with rounding, so every return is bit-identical.  An inexact factor (0.1)
+        # perturbs each return by an ulp, which re-shuffles NEARLY tied returns around the VaR quantile / around zero in a long
+        # record and moves the discontinuous metrics (expected shortfall, downside volatility) - float noise, not a scale dependence;
+        # inexact factors are judged on the short series, where no such near-ties exist
+        for c in (2.0, 0.25, 1024.0):
             for k in METRICS:
                 a, b = float(getattr(sl * c, k)()), float(getattr(sl, k)())
                 # ratios whose textbook denominator is zero / undefined carry rounding noise in a long record: nothing is required of them
@@ -521,7 +525,7 @@ def run(tier, **kw):
                     "risk-free rate), VaR and expected shortfall also at quantile levels 0.25/0.5/0.75/1, 3 series-valued metrics, a 2-column DataFrame, a risk-free level series, tracking error against a benchmark, and 5 "
                     "scalings; corruptions: every single-defect variant (NaN / 0 / negative at each position, duplicated stamp, swapped adjacent stamps, "
                     "integer / string / NaT index) of every series over 4 values up to length 4 x every metric; tearsheet rows of a TrackRecord fed with the path; "
-                    "long records: every cyclic pattern of day-to-day ratios {2, 1/2, 1, 3/2, 2/3} of period <= 2 (quick) / 3 (thorough) at lengths 41, 260 (601) on business-day and three-stamps-per-day indices, all scalar and series-valued metrics and 2 scalings; "
+                    "long records: every cyclic pattern of day-to-day ratios {2, 1/2, 1, 3/2, 2/3} of period <= 2 (quick) / 3 (thorough) at lengths 41, 260 (601) on business-day and three-stamps-per-day indices, all scalar and series-valued metrics and 3 power-of-two scalings; "
                     "non-trivial = distinct case whose daily levels are not all equal" % maxlen)
     rep.set("samples", [{"kind": "metrics", "vals": [1.0, 2.0, 1.5, 3.0], "shape": "intraday"}, {"kind": "corrupt", "vals": [2.0, 1.0, 4.0], "shape": "daily"}])
     rep.assumptions = ["small-scope: real-valued inputs outside the alphabet are beyond a bounded enumeration; long records are covered only for periodic ratio patterns",
